@@ -354,8 +354,21 @@ func generate(rnd *rand.Rand, thorough bool) []*Prog {
 					}
 				}
 				ds = append(ds, der{"add", 0xfffffff0, uint32(ea) + 16, 0}, der{"sub", 0x7fffffff, uint32(ea) + 0x7fffffff, 0})
+				// truncations of a 64-bit value whose upper half is set (the i32 is the low half only)
+				for _, hi := range []uint32{0, 4, 0x7fffffff, 0xfffffffe} {
+					ds = append(ds, der{"wrap", hi, uint32(ea), 0})
+					if ea >= 16 {
+						ds = append(ds, der{"wrapadd", hi, uint32(ea) - 16, 0})
+					}
+				}
 				for _, d := range ds {
 					set := Stmt{K: "settmpx", Op: d.op, B: d.b}
+					// the second access after the merge of an if/else whose arms neither call nor grow: its bounds check
+					// may be elided and the host address re-derived from the 32-bit value
+					for _, c := range []uint32{0, 1} {
+						mk("xifelse", d.p, c, set, acc(op, "tmp", 0, d.off, val()), Stmt{K: "if", Body: []Stmt{{K: "setcb", B: 1}}, Else: []Stmt{{K: "setcb", B: 2}}}, acc(op, "tmp", 0, d.off, val()))
+						mk("xif", d.p, c, set, acc(op, "tmp", 0, d.off, val()), Stmt{K: "if", Body: []Stmt{{K: "setcb", B: 1}}}, acc(op, "tmp", 0, d.off, val()))
+					}
 					mk("xsingle", d.p, 0, set, acc(op, "tmp", 0, d.off, val()))
 					mk("xtwice", d.p, 0, set, acc(op, "tmp", 0, d.off, val()), acc(op, "tmp", 0, d.off, val()))
 					mk("xcall", d.p, 0, set, acc(op, "tmp", 0, d.off, val()), Stmt{K: "call"}, acc(op, "tmp", 0, d.off, val()))
